@@ -2968,7 +2968,9 @@ def groupby_reduce(
         groups = final_groups
 
     if is_bool_array and (_is_minmax_reduction(func) or _is_first_last_reduction(func)):
-        result = result.astype(bool)
+        # back to bool, unless another dtype or a non-boolean fill_value was asked for
+        if dtype is None and (fill_value is None or isinstance(fill_value, bool | np.bool_)):
+            result = result.astype(bool)
 
     # Output of count has an int dtype.
     if requires_numeric and func != "count":
